@@ -129,6 +129,16 @@ func (e *Error) Meta() http.Header {
 	return e.meta
 }
 
+// clone returns a copy of the error that shares nothing mutable with it.
+func (e *Error) clone() *Error {
+	return &Error{
+		code:    e.code,
+		err:     e.err,
+		details: append([]ErrorDetail(nil), e.details...),
+		meta:    e.meta.Clone(),
+	}
+}
+
 func (e *Error) detailsAsAny() ([]*anypb.Any, error) {
 	anys := make([]*anypb.Any, 0, len(e.details))
 	for _, detail := range e.details {
